@@ -19,8 +19,8 @@ pub static DEF: CheckDef = CheckDef {
     id: "C30",
     variants: &["static-exec", "dynamic-exec", "static-rejected", "dynamic-rejected"],
     run,
-    quick_runs: 8_000,
-    thorough_runs: 300_000,
+    quick_runs: 100_000,
+    thorough_runs: 6_000_000,
     rule: "case = generated query or mutation (valid; or rejected at parse / validation in the 'rejected' variants), optional fault plan of the schedule-independent class (none, one fault, or faults on nullable fields), executed once without extensions and once with a stack of 1-3 recording pass-through extensions whose hooks may suspend on simulator gates before and after delegating, each under its own drawn schedule. Oracle: (a) identical response (data in key order, error multiset, extensions, cache control); (b) hook trace: request encloses everything; prepare_request < parse_query < validation < execute, each exactly once up to the stage that rejected the request; per hook kind entries in registration order and exits reversed; resolve entered at most once per position per extension, nested, and (fault-free) exactly once for every resolved field and list element. Non-trivial = an extension hook actually suspended or a fault fired; distinct = distinct event-order hashes.",
     real: &["async-graphql extension chain (Next* runners), extension branches of field and list resolution (static and dynamic), prepare_request pipeline"],
     stub: &["async runtime (simulator)", "recording extensions (harness)", "resolvers (harness, gated)"],
